@@ -12,8 +12,9 @@ from harness.trace import Run, result_str
 
 PROP = "C07"
 THEOREMS = ["Lbfgsb.C07.callback_state_eq_run_k", "Lbfgsb.C07.maxiter_only_in_guard",
-            "Lbfgsb.C07.snapshot_is_value", "Lbfgsb.C07.callback_false_transparent"]
-MODULES = ["LbfgsbVerif.Props.C07"]
+            "Lbfgsb.C07.snapshot_is_value", "Lbfgsb.C07.callback_false_transparent",
+            "Lbfgsb.C06.restart_continues", "Lbfgsb.C06.restart_same_result"]
+MODULES = ["LbfgsbVerif.Props.C07", "LbfgsbVerif.Props.C06Sim"]
 
 FIELDS = ("x", "fun", "jac", "nfev", "njev", "nit", "sk", "yk")
 
